@@ -250,3 +250,4 @@ func rawSignDER(k *fixtures.Key, alg string, prot, payload []byte) []byte {
 	}
 	return sig
 }
+
